@@ -440,3 +440,9 @@ def r12_10(ctx):
               expected="ret._method.main_untranscribe(ret) (opti = None) after the deep copy", found="opti = %s" % (m.attrs.get("opti"),), fi=f)
     ctx.check(m.attrs.get("transcription") is None, "the clone's method holds no transcription state of the template's own solve", detail="stale variable / constraint lists of the template's solve in the new stage's method",
               expected="ret._method.untranscribe(ret) / clean() after the deep copy", found="state = %s" % (m.attrs.get("transcription"),), fi=f)
+
+
+@rule("R12.11", min_instances=4, desc="the parent's own objective terms and point constraints reach the NLP of a multi-stage OCP whatever else the parent declares (shared with C05: R05.4 - every phase-1 path of DirectMethod.transcribe reaches the objective)")
+def r12_11(ctx):
+    from .c05 import r05_4
+    r05_4(ctx)
